@@ -261,6 +261,27 @@ func (g *cityGen) genValidAdd(mix opMix) op {
 			id = ids[rc.Draw(len(ids))]
 		}
 		s := g.relationSpec(id, mix.cycles)
+		if old := g.specs[id]; old != nil && rc.Pct(45) {
+			// an incremental edit of an existing relation: drop one member,
+			// or gain one that another relation already has (referrer lists
+			// shared between relations, shrinking step by step)
+			s = old.clone()
+			if len(s.Members) > 0 && rc.Pct(60) {
+				k := rc.Draw(len(s.Members))
+				s.Members = append(s.Members[:k:k], s.Members[k+1:]...)
+			} else {
+				others := g.sortedIDs(b6.FeatureTypeRelation)
+				if o := g.specs[others[rc.Draw(len(others))]]; o != nil && len(o.Members) > 0 {
+					m := o.Members[rc.Draw(len(o.Members))]
+					if mix.cycles || m.ID.Type != b6.FeatureTypeRelation {
+						s.Members = append(s.Members, m)
+					}
+				}
+			}
+			if rc.Pct(50) {
+				return op{Kind: "add", Spec: s}
+			}
+		}
 		s.Tags = g.someTags(2)
 		return op{Kind: "add", Spec: s}
 	default: // collection
